@@ -45,6 +45,7 @@ def check(ctx):
             cases.append({"cls": cls, "axes": "ordinal", "meta": "tuple", "lazy": False, "store": store, "dtype": dt})
     for store, lazy in itertools.product(("dir", "zip"), (False, True)):
         cases.append({"cls": "LIST", "axes": "scan", "meta": "tuple", "lazy": lazy, "store": store, "dtype": "default"})
+        cases.append({"cls": "LIST", "axes": "scan", "meta": "tuple", "lazy": lazy, "store": store, "dtype": "default", "same": True})
     ctx.run(cases, "run_case", rule="one case per (class, axis kind, metadata shape, lazy, store[, dtype]); non-trivial = has ensemble axes or metadata")
 
 
@@ -224,14 +225,30 @@ def run_case(c):
             from abtem.array import ComputableList
 
             objs = [make(dict(c, cls="Images")), make(dict(c, cls="DiffractionPatterns", axes="ordinal"))]
+            if c.get("same"):  # three objects of the SAME class and shape with different content (what detectors=[...] of one kind produce)
+                objs = [make(dict(c, cls="Images")) for _ in range(3)]
+                for k, o in enumerate(objs):
+                    o._array = np.asarray(o.array) + np.float32(10.0 * k)
             if c["lazy"]:
                 objs = [o.ensure_lazy() for o in objs]
             ComputableList(objs).to_zarr(url)
             back = abtem.from_zarr(url)
             back = back if isinstance(back, (list, tuple)) else [back]
-            if len(back) != 2:
-                bad("list/length", "a ComputableList of 2 came back with %d items" % len(back))
+            if len(back) != len(objs):
+                bad("list/length", "a ComputableList of %d came back with %d items" % (len(objs), len(back)))
             else:
+                # every subset of the loaded lazy objects evaluated in ONE dask graph must carry what was written (before compare() computes them one by one)
+                import dask
+
+                want = [np.asarray(o.compute().array if o.is_lazy else o.array) for o in objs]
+                lazies = [b for b in back if getattr(b, "is_lazy", False)]
+                if len(lazies) == len(back):
+                    for r in range(2, len(back) + 1):
+                        for sub in itertools.combinations(range(len(back)), r):
+                            got = dask.compute(*[back[i].array for i in sub])
+                            for i, g in zip(sub, got):
+                                if np.asarray(g).shape != want[i].shape or not np.array_equal(np.asarray(g), want[i]):
+                                    bad("list/joint-compute", "item %d of the list, computed together with items %r of the same file, does not hold the values that were written" % (i, [j for j in sub if j != i]))
                 for o, b in zip(objs, back):
                     compare(o, b, bad)
             return {"viol": viol, "obs": "list", "tr": 2}
